@@ -53,16 +53,16 @@ type frameSpec struct {
 }
 
 type caseSpec struct {
-	SPS    string      `json:"sps_hex"`
-	PPS    string      `json:"pps_hex"`
-	ASC    string      `json:"asc_hex"`
-	Muxer  bool        `json:"through_muxer"`
+	SPS   string `json:"sps_hex"`
+	PPS   string `json:"pps_hex"`
+	ASC   string `json:"asc_hex"`
+	Muxer bool   `json:"through_muxer"`
 	// LateParamSets: the packetizers / muxer are built while the stream's metadata
 	// holds no SPS/PPS yet (SDP without sprop-parameter-sets); they are filled in
 	// afterwards, before the first frame, the way the RTP depacketizer does when
 	// it meets in-band parameter sets.
-	LateParamSets bool `json:"late_parameter_sets,omitempty"`
-	Frames []frameSpec `json:"frames"`
+	LateParamSets bool        `json:"late_parameter_sets,omitempty"`
+	Frames        []frameSpec `json:"frames"`
 }
 
 func (f frameSpec) nalType() byte { return f.Hdr & 0x1f }
@@ -630,6 +630,21 @@ func TestReplayFile(t *testing.T) {
 	b, err := os.ReadFile(p)
 	if err != nil {
 		t.Fatal(err)
+	}
+	var probe struct {
+		Case struct {
+			Kind string `json:"kind"`
+		} `json:"case"`
+	}
+	if json.Unmarshal(b, &probe) == nil && probe.Case.Kind != "" {
+		var doc struct {
+			Case multiCase `json:"case"`
+		}
+		if err := json.Unmarshal(b, &doc); err != nil {
+			t.Fatal(err)
+		}
+		replayMulti(t, &doc.Case)
+		return
 	}
 	var doc struct {
 		Case caseSpec `json:"case"`
